@@ -75,6 +75,11 @@ CHECKS.update({
              text="Bounded symbolic checking: node set, coordinates, neighbours (mod self), edge neighbours, edge listing, bounding box and box-restricted node listing (up to the float32 rounding of the R-tree) coincide for all coordinates / boxes within the bounds; an edge matcher gives the same index and probability on both backends.",
              note="2-4 integer-labelled nodes; matcher part on a concrete unit-square layout with symbolic observations; float32 band 2^-21 relative."),
 })
+CHECKS.update({
+ 'C14': dict(tech="symbolic execution of the real dist_latlon functions in an exact angle algebra ((sin,cos) pairs over z3 reals), identities against 3-D unit vectors decided by z3 nlsat; replay on doubles against an independent vector computation", ref="5/C14",
+             text="Bounded/partial symbolic checking: haversine distance = great-circle angle (all points); destination inverts distance and bearing; box_around_point contains the disc in latitude (longitude bounds and parts of point-to-segment are attempted and reported inconclusive when nlsat returns unknown); point-to-segment distance/point consistency and end-point swap on the decided paths.",
+             note="Exact reals; ti as a ratio of angles only through 0/1 clamping; the centimetre agreement of the planar-frame segment-to-segment routine is outside (transcendental error bound); inconclusive paths are counted, never reported as passes."),
+})
 NA = {
  'C15': "error bound between two transcendental computations (great-circle vs locally projected planar): needs a delta-complete procedure for sin/cos/atan2; z3 has none and cvc5 QF_NRAT timed out on the 3-variable core (DESIGN.md section 8)",
 }
